@@ -38,6 +38,14 @@ func listEnvInt(name string, def int) int {
 
 const listWalkCap = 200
 
+// num is the element's number; -1 when a walk reaches something that is not an element (the sentinel)
+func num(e *list.Element[*lItem]) int {
+	if e.Value() == nil {
+		return -1
+	}
+	return e.Value().n
+}
+
 type listRec struct {
 	ls      [2]*list.List[*lItem]
 	elems   []*list.Element[*lItem]
@@ -59,11 +67,11 @@ func (r *listRec) observe(line map[string]any) {
 	for _, l := range r.ls {
 		f, b := []int{}, []int{}
 		for e := l.First(); e != nil && len(f) < listWalkCap; e = e.Next() {
-			f = append(f, e.Value().n)
-			in[e.Value().n] = true
+			f = append(f, num(e))
+			in[num(e)] = true
 		}
 		for e := l.Last(); e != nil && len(b) < listWalkCap; e = e.Prev() {
-			b = append(b, e.Value().n)
+			b = append(b, num(e))
 		}
 		fwd, bwd, size = append(fwd, f), append(bwd, b), append(size, l.Size())
 	}
@@ -93,7 +101,7 @@ func (r *listRec) holder(e int) int {
 	for i, l := range r.ls {
 		n := 0
 		for x := l.First(); x != nil && n < listWalkCap; x = x.Next() {
-			if x.Value().n == e {
+			if num(x) == e {
 				return i + 1
 			}
 			n++
@@ -112,7 +120,12 @@ func (r *listRec) remove(L, e int) {
 		r.removed++
 	}
 	ret := r.ls[L-1].Remove(r.elems[e-1])
-	r.observe(map[string]any{"ev": "remove", "L": L, "e": e, "ret": ret.n})
+	r.observe(map[string]any{"ev": "remove", "L": L, "e": e, "ret": func() int {
+		if ret == nil {
+			return -1
+		}
+		return ret.n
+	}()})
 }
 
 func (r *listRec) flush(t *testing.T, name string) {
